@@ -151,6 +151,10 @@ type c14Env struct {
 	workdir string
 	timeout time.Duration
 	layouts int
+	// vm_compute sample of the copy path and of the reader's demand (cases.v)
+	vmCopyDefs  []string
+	vmCopyCases []string
+	vmDemand    []string
 }
 
 func (env *c14Env) options(sp *c14Spec, cfg c14Cfg) []parquet.WriterOption {
@@ -953,8 +957,29 @@ func runC14(c *core.Ctx) {
 		c.Vm("Definition cases : list (option N * fault * (nat * nat * bool)) := [\n  " + strings.Join(vmCases, ";\n  ") + "].")
 		c.Vm(fmt.Sprintf("Definition agrees (x : option N * fault * (nat * nat * bool)) : bool :=\n  let '(buf, f, (code, call, comp)) := x in\n  let '(e, i, _, c) := close_verdict true f buf lay in\n  Nat.eqb (err_code e) code && Bool.eqb c comp &&\n  Nat.eqb (if is_err e then nth i callmap close_call else %d%%nat) call.", len(vmLayout.calls)))
 		c.Vm("Definition mismatches := filter (fun x => negb (agrees x)) cases.")
-		c.Vm("Definition M := Eval vm_compute in (length cases, mismatches).\nPrint M.")
-		c.Res.VmCases = len(vmCases)
+		// the copy path (Sink/Copy.v) and the reader's demand (Sink/Demand.v)
+		c.Vm("From PQ Require Import Sink.Copy Sink.Demand.")
+		if len(env.vmCopyDefs) == 0 {
+			env.vmCopyDefs = []string{"Definition citems : list (item N) := [].", "Definition ccallmap : list nat := [].", "Definition cclose : nat := 0%nat.", "Definition cncalls : nat := 0%nat."}
+		}
+		for _, d := range env.vmCopyDefs {
+			c.Vm(d)
+		}
+		c.Vm("Definition set_avail (i : nat) (a : N) (xs : list (item N)) : list (item N) :=\n  (fix go (k : nat) (xs : list (item N)) := match xs with [] => [] | x :: r =>\n     (if Nat.eqb k i then match x with ICopied kd ps _ => ICopied kd ps a | IStage ps _ => IStage ps a | y => y end else x) :: go (S k) r end) O xs.")
+		c.Vm("Definition cerr_code (e : cerr) : nat := match e with CNil => 0 | CDst ESink => 1 | CDst EShort => 2 | CDst ENone => 3 | CSrc => 4 end.")
+		c.Vm("Definition ccases : list (option N * fault * option (nat * N) * (nat * nat * bool)) := " + core.CoqList(env.vmCopyCases) + ".")
+		c.Vm("Definition cagrees (x : option N * fault * option (nat * N) * (nat * nat * bool)) : bool :=\n  let '(buf, f, sh, (code, call, comp)) := x in\n  let xs := match sh with Some (i, a) => set_avail i a citems | None => citems end in\n  let '(e, i, _, c) := copy_verdict true f buf xs in\n  Nat.eqb (cerr_code e) code && Bool.eqb c comp &&\n  Nat.eqb (if is_cerr e then nth i ccallmap cclose else cncalls) call.")
+		c.Vm("Definition cmismatches := filter (fun x => negb (cagrees x)) ccases.")
+		c.Vm("Fixpoint ranges_eqb (a b : list (N * N)) : bool := match a, b with [] , [] => true | (o, l) :: a', (o', l') :: b' => (o =? o') && (l =? l') && ranges_eqb a' b' | _, _ => false end.")
+		c.Vm("Fixpoint all2 (f : chunk_row -> list (N * N) -> bool) (a : list chunk_row) (b : list (list (N * N))) : bool := match a, b with [], [] => true | x :: a', y :: b' => f x y && all2 f a' b' | _, _ => false end.")
+		c.Vm("Definition dcases : list (ftable * list (N * N) * list (list (N * N))) := " + core.CoqList(env.vmDemand) + ".")
+		c.Vm("Definition dagrees (x : ftable * list (N * N) * list (list (N * N))) : bool :=\n  let '(t, o, cs) := x in ranges_eqb (open_demand t) o && all2 (fun c r => ranges_eqb (chunk_reads (ft_bufsize t) c) r) (ft_rows t) cs.")
+		c.Vm("Definition dmismatches := filter (fun x => negb (dagrees x)) dcases.")
+		c.Vm("Definition D1 := Eval vm_compute in mismatches. Print D1.")
+		c.Vm("Definition D2 := Eval vm_compute in cmismatches. Print D2.")
+		c.Vm("Definition D3 := Eval vm_compute in map (fun x => fst (fst x)) dmismatches. Print D3.")
+		c.Vm("Definition M := Eval vm_compute in ((length cases + length ccases + length dcases)%nat,\n  (map (fun _ => 1%nat) mismatches ++ map (fun _ => 2%nat) cmismatches ++ map (fun _ => 3%nat) dmismatches)).\nPrint M.")
+		c.Res.VmCases = len(vmCases) + len(env.vmCopyCases) + len(env.vmDemand)
 	}
 	c.Note("the model abstracts the batching of the API calls: a site is attributed to the API call that wrote it in the fault-free reference run, and the call that reports first must be that call (for a buffered writer: the call during which the failing flush of bufio.Writer happens)")
 	c.Note("a destination answering (0, nil) forever is outside the fault model (memory.Buffer.WriteTo and bufio.Writer.Write would not terminate); the one-shot short count at the current offset (0, nil) is inside and swept")
